@@ -837,8 +837,7 @@ func actString(a aAct) string {
 func (e *mpEnv) runJob(res *verifkit.Result, j seqJob, rng *rand.Rand) {
 	g := j.g
 	if err := e.reset(g.States[g.Init].Chain); err != nil {
-		res.Note("reset failed: %v", err)
-		return
+		panic(fmt.Sprintf("c13 harness: reset failed: %v", err))
 	}
 	var hist []aAct
 	if j.ti >= 0 {
@@ -1077,8 +1076,7 @@ func concurrentRun(res *verifkit.Result, e *mpEnv, cp concParams, run int) []map
 		init[a] = aSt{Nonce: 0, Bal: 2}
 	}
 	if err := e.reset(init); err != nil {
-		res.Note("reset failed: %v", err)
-		return nil
+		panic(fmt.Sprintf("c13 harness: reset failed: %v", err))
 	}
 	profile := []string{"prod", "free"}[run%2]
 	initChain := []interface{}{}
